@@ -20,14 +20,17 @@ PROPS = {
              "bindings (pod, uid recorded / older incarnation / no uid) and idle addresses (Valid/Deleting), 6 pod slots (absent / Running / Pending / "
              "Succeeded / Failed, same or other incarnation), runtime entries of every shape (no entry, empty, initial only, deleted only, both in either "
              "order, nil values; never equal timestamps), pods that report addresses in their status (their bound ones, or - take-over - idle ones the record "
-             "has not linked to them), IPv4 / dual / IPv6-only, pool sizes, cloud fault plan, entry point release|trim|gc|sync|sync2 (two sync passes with "
+             "has not linked to them), IPv4 / dual / IPv6-only, pool sizes, cloud fault plan, optionally a lost assign answer per interface (its addresses meanwhile recorded "
+             "and bound or idle) that the cloud replays to the next identical assign request, entry point release|trim|gc|sync|sync2 (two sync passes with "
              "drawn pod objects vanishing in between, second pass judged against the owners established by the first); "
              "non-trivial = a trim/gc/sync pass over >= 1 bound address, or a release pass with >= 1 bound address whose pod is gone. "
              "Closed loop: 4-30 (thorough 50) steps over <= 4 (6) pods of create / ADD (optionally reporting the pod IP) / delete object / "
              "phase Succeeded|Failed / DEL (current, superseded or unknown container id) / flush (may fail) / flushadd (the reporter tick runs, a CNI ADD for a pod completes "
              "while the tick's write to the API server is in flight, and that write fails) / agent GC (PodExist truthful, failing, "
-             "stale-true; write may fail) / 5-minute job / reconcile (forced GC, full sync, status-write failure or conflict, cloud faults) / "
-             "agent restart / controller restart, plus bindings that pre-exist the history with or without a recorded UID and running pods that report "
+             "stale-true; write may fail) / 5-minute job / reconcile (forced GC, full sync, status-write failure or conflict, cloud faults, or the next assign executed but its answer lost - the cloud "
+             "stub then replays that answer to the next assign with the same interface and count, as the real API does for a reused client token; "
+             "usually followed by a full sync) / "
+             "agent restart / controller restart, on an IPv4, dual-stack or IPv6-only pool, plus bindings that pre-exist the history with or without a recorded UID and running pods that report "
              "addresses the record has not linked to them yet (take-over by the first reconcile); two thirds of the steps "
              "follow a pod's natural lifecycle, one third is arbitrary; non-trivial = some reconcile starts with a bound address whose pod object is "
              "gone while its teardown report is still pending, or a pool GC pass runs over >= 1 bound address. distinct = distinct scenario hash",
@@ -48,8 +51,9 @@ PROPS = {
             "only the pod to be gone, until the record itself learns the UID",
         ],
         level_text="generated records and generated histories of the two-process protocol run through the real controller and the real node agent "
-                   "against an oracle written from the statement; bounded liveness (pod gone and teardown reported => freed by the next fault-free "
-                   "reconcile) and the agent-side clause (every `deleted` that appears belongs to a pod whose DEL was processed and that has not been given a sandbox again since, or that a GC verified "
+                   "against an oracle written from the statement; bounded liveness (pod gone and teardown in NodeRuntime => freed by the next fault-free reconcile; and, if a history ends with an "
+                   "address bound to a vanished pod whose teardown the agent had reported at some point - even if the report is gone again - two fault-free "
+                   "rounds of flush / 5-minute housekeeping / agent GC / flush / reconcile must free it) and the agent-side clause (every `deleted` that appears belongs to a pod whose DEL was processed and that has not been given a sandbox again since, or that a GC verified "
                    "gone) are checked on every step; exploration, not proof",
         level_note="trusts controller-runtime's fake client as the API server (status subresources, index on spec.nodeName; the interceptor drops "
                    "status on create of NodeRuntime as a real API server does) and a 400-line cloud stub; the agent is assembled from its real parts "
